@@ -644,8 +644,34 @@ def operator_classes(repo: Repo) -> list[tuple[str, str]]:
         rel, _ = repo.class_table[cname]
         if cname in ABSTRACT or cname in RULE_CLASSES:
             continue
+        if _is_abstract_base(repo, cname):
+            continue
         out.append((rel, cname))
     return out
+
+
+_ABSTRACT_CACHE: dict = {}
+
+
+def _is_abstract_base(repo: Repo, cname: str) -> bool:
+    """An intermediate base class (it has subclasses among the expression classes and nothing in the library ever
+    constructs it) is not an operator of its own: its methods are analysed through the classes that inherit them."""
+    key = (id(repo), cname)
+    if key not in _ABSTRACT_CACHE:
+        has_sub = any(c != cname and cname in repo.mro(c)[1:] for c in repo.subclasses("Expression"))
+        constructed = False
+        if has_sub:
+            for rel in repo.py_files:
+                if not rel.startswith("src/"):
+                    continue
+                for n in ast.walk(repo.mod(rel).tree):
+                    if isinstance(n, ast.Call) and ((isinstance(n.func, ast.Name) and n.func.id == cname) or (isinstance(n.func, ast.Attribute) and n.func.attr == cname)):
+                        constructed = True
+                        break
+                if constructed:
+                    break
+        _ABSTRACT_CACHE[key] = has_sub and not constructed
+    return _ABSTRACT_CACHE[key]
 
 
 def _delegating(fn: ast.FunctionDef, method: str) -> str | None:
@@ -707,9 +733,37 @@ def delegation_checks(repo: Repo, rep: OpReport, rel: str, cls: str) -> str | No
                         assign = n
                     else:
                         writes_elsewhere.append(fn.name)
-    ok = not writes_elsewhere and assign is not None
-    what = f"self.{a} is built once in __init__" if ok else f"self.{a} is written outside __init__ ({writes_elsewhere})" if writes_elsewhere else f"self.{a} is never assigned in __init__"
+    inherited_init = None
+    if assign is None and not writes_elsewhere:
+        # built by a base class's __init__ (the subclass hands the form to super().__init__): still "once, in __init__"
+        for base in repo.mro(cls)[1:]:
+            ent = repo.class_table.get(base)
+            if not ent:
+                continue
+            for fn in ent[1].body:
+                if isinstance(fn, ast.FunctionDef):
+                    for n in ast.walk(fn):
+                        tgts = n.targets if isinstance(n, ast.Assign) else [n.target] if isinstance(n, (ast.AugAssign, ast.AnnAssign)) else []
+                        if any(isinstance(t, ast.Attribute) and isinstance(t.value, ast.Name) and t.value.id == "self" and t.attr == a for t in tgts):
+                            if fn.name == "__init__":
+                                inherited_init = base
+                            else:
+                                writes_elsewhere.append(f"{base}.{fn.name}")
+            if inherited_init:
+                break
+    ok = not writes_elsewhere and (assign is not None or inherited_init is not None)
+    what = f"self.{a} is built once in __init__" + (f" (of the base class {inherited_init})" if inherited_init else "") if ok else f"self.{a} is written outside __init__ ({writes_elsewhere})" if writes_elsewhere else f"self.{a} is never assigned in __init__"
     rep.oblige({"C01", "C03", "C15"}, "DELEGATE", construct, what, ok)
+    if inherited_init is not None and cls in terms.UNROLLED:
+        # no assignment of its own to normalise symbolically: the concrete evaluation decides bounds 0..3
+        from .unrollsem import check_constructor as _cc  # noqa: PLC0415
+
+        n_, bad_ = _cc(repo, f"{construct}.__init__", cls, a)
+        sig_ = f"self.{a} is not the unrolled form pest specifies"
+        rep.oblige({"C01", "C03", "C04"}, "UNROLLED", construct, f"for every bound 0..3 ({n_} instances) __init__ builds exactly the flat unrolled form" if not bad_ else sig_, not bad_,
+                   Finding("UNROLLED", construct, sig_, f"{cls}: {bad_[0] if bad_ else ''} ({len(bad_)} of {n_} bound instances)", {"witness": bad_[0] if bad_ else ""}))
+        rep.count("delegating_operators")
+        return a
     if assign is None or init is None or getattr(assign, "value", None) is None:
         return a
     want = terms.UNROLLED.get(cls)
@@ -993,9 +1047,12 @@ def analyse_trivia(repo: Repo, rep: OpReport, tier: str) -> None:
         base_cfg = dict(sk.trivia_cfg)  # type: ignore[attr-defined]
         tree = ast.parse(sk.source)
         fns = [n for n in tree.body if isinstance(n, ast.FunctionDef)]
-        if len(fns) != 1:
-            raise AnalysisError(f"{sk.construct}: parse_trivia skeleton is not a single function")
-        recs, _ = ops.run_skeleton(repo, sk, {}, {"stack": ()}, 3 if tier == "quick" else 4, body=fns[0].body, result_var=None, out_name="pairs")
+        main = [n for n in fns if n.name == "parse_trivia"] or fns[-1:]
+        if len(main) != 1:
+            raise AnalysisError(f"{sk.construct}: the emitted code has no parse_trivia function")
+        helpers = {n.name: n for n in fns if n is not main[0]}
+        pnames = [a_.arg for a_ in main[0].args.args]
+        recs, _ = ops.run_skeleton(repo, sk, {}, {"stack": ()}, 3 if tier == "quick" else 4, body=main[0].body, result_var=None, out_name=pnames[1] if len(pnames) > 1 else "pairs", helpers=helpers)
         rep.count("trivia_paths", len(recs))
         for rec in recs:
             atomq = [ev for ev in rec.events if ev[0] == "ATOMQ"]
